@@ -43,7 +43,14 @@ import (
 	"gopkg.in/yaml.v3"
 )
 
+type c11mIPF struct {
+	BlockByDefault bool     `json:"blockByDefault" yaml:"blockByDefault"`
+	AllowIPs       []string `json:"allowIPs,omitempty" yaml:"allowIPs,omitempty"`
+	BlockIPs       []string `json:"blockIPs,omitempty" yaml:"blockIPs,omitempty"`
+}
+
 type c11mPath struct {
+	IPFilter      *c11mIPF `json:"ipFilter,omitempty" yaml:"ipFilter,omitempty"`
 	Path          string   `json:"path,omitempty" yaml:"path,omitempty"`
 	PathPrefix    string   `json:"pathPrefix,omitempty" yaml:"pathPrefix,omitempty"`
 	Methods       []string `json:"methods,omitempty" yaml:"methods,omitempty"`
@@ -52,11 +59,13 @@ type c11mPath struct {
 }
 
 type c11mRule struct {
-	Host  string     `json:"host,omitempty" yaml:"host,omitempty"`
-	Paths []c11mPath `json:"paths" yaml:"paths"`
+	IPFilter *c11mIPF   `json:"ipFilter,omitempty" yaml:"ipFilter,omitempty"`
+	Host     string     `json:"host,omitempty" yaml:"host,omitempty"`
+	Paths    []c11mPath `json:"paths" yaml:"paths"`
 }
 
 type c11mGenSpec struct {
+	IPFilter  *c11mIPF   `json:"ipFilter,omitempty"`
 	Rules     []c11mRule `json:"rules"`
 	XFF       bool       `json:"xForwardedFor"`
 	Tag       string     `json:"tag"`      // identity of the mux mapper object of this generation
@@ -146,6 +155,9 @@ func c11mYAML(g c11mGenSpec) (string, error) {
 	doc := map[string]interface{}{
 		"kind": "HTTPServer", "name": "srv", "port": 10080, "keepAlive": true, "https": false,
 		"xForwardedFor": g.XFF, "cacheSize": g.CacheSize, "rules": rules,
+	}
+	if g.IPFilter != nil {
+		doc["ipFilter"] = g.IPFilter
 	}
 	b, err := yaml.Marshal(doc)
 	return string(b), err
@@ -347,7 +359,10 @@ func c11mExec(raw json.RawMessage) interface{} {
 // ---------------------------------------------------------------- generator
 
 func c11mGenSpecA(r *verifh.Rand) c11mGenSpec {
-	g := c11mGenSpec{Tag: "A", XFF: r.Bool(1, 2), CacheSize: r.PickInt(0, 0, 16)}
+	g := c11mGenSpec{Tag: "A", XFF: r.Bool(1, 2), CacheSize: r.PickInt(0, 1, 2, 16)}
+	if r.Bool(1, 3) {
+		g.IPFilter = c11mIPFGen(r)
+	}
 	nr := r.Range(1, 3)
 	for i := 0; i < nr; i++ {
 		rule := c11mRule{Host: r.Pick("", "a.com", "a.com", "b.com")}
@@ -416,8 +431,40 @@ func c11mDerive(r *verifh.Rand, a c11mGenSpec) c11mGenSpec {
 		b = a
 		b.Tag = "B"
 	}
-	b.CacheSize = r.PickInt(0, 0, 16)
+	b.CacheSize = r.PickInt(0, 1, 2, 16)
+	if r.Bool(1, 3) {
+		// only ONE aspect differs (rules, cache size and everything else stay equal): the server ipFilter or the options
+		b = a
+		b.Tag = "B"
+		b.Backends = a.Backends
+		if r.Bool(2, 3) {
+			b.IPFilter = c11mIPFGen(r)
+			if a.IPFilter != nil && r.Bool(1, 2) {
+				b.IPFilter = nil
+			}
+		} else {
+			b.XFF = !a.XFF
+		}
+	}
 	return b
+}
+
+var c11mClientIPs = []string{"10.0.0.1", "10.0.0.2", "10.0.0.3"}
+
+func c11mIPFGen(r *verifh.Rand) *c11mIPF {
+	f := &c11mIPF{BlockByDefault: r.Bool(1, 4)}
+	for _, ip := range c11mClientIPs {
+		switch r.Intn(4) {
+		case 0:
+			f.AllowIPs = append(f.AllowIPs, ip)
+		case 1:
+			f.BlockIPs = append(f.BlockIPs, ip)
+		}
+	}
+	if r.Bool(1, 6) && len(f.AllowIPs) > 0 {
+		f.BlockIPs = append(f.BlockIPs, f.AllowIPs[0]) // allowed and blocked: default decides
+	}
+	return f
 }
 
 func c11mGen(r *verifh.Rand, i int) interface{} {
@@ -431,7 +478,7 @@ func c11mGen(r *verifh.Rand, i int) interface{} {
 			q.XFF = r.Pick("9.9.9.9", "192.0.2.1", "9.9.9.9, 8.8.8.8")
 		}
 		if r.Bool(1, 3) {
-			q.Remote = r.Pick("10.0.0.7:4000", "192.0.2.1:1234")
+			q.Remote = r.Pick("10.0.0.1:4000", "10.0.0.2:4000", "10.0.0.3:4000", "192.0.2.1:1234")
 		}
 		in.Reqs = append(in.Reqs, q)
 	}
@@ -440,4 +487,232 @@ func c11mGen(r *verifh.Rand, i int) interface{} {
 
 func TestVerifC11Mux(t *testing.T) {
 	verifh.Run(t, c11mGen, c11mExec, 0)
+}
+
+// ---------------------------------------------------------------- sequential histories
+//
+// TestVerifC11MuxHist: deterministic histories of [request | reload(spec_i)] over a family of
+// specs whose members differ from the base in exactly ONE aspect (rules, server / rule / path
+// ipFilter, xForwardedFor, backend names + mapper, cacheSize, nothing). The same request keys
+// are repeated before and after every reload from different client IPs, so that any state of
+// an earlier generation that survives a reload (route cache, filter chains, options, mapper)
+// shows up as a response that is not `serve` of the generation installed last.
+
+type c11hOp struct {
+	Op string `json:"op"` // "reload" (I = index into specs) | "req" (I = index into reqs)
+	I  int    `json:"i"`
+}
+
+type c11hInput struct {
+	Specs []c11mGenSpec `json:"specs"`
+	Reqs  []c11mReq     `json:"reqs"`
+	Hist  []c11hOp      `json:"hist"`
+}
+
+type c11hObs struct {
+	Err    string        `json:"err,omitempty"`
+	Note   string        `json:"note,omitempty"`
+	Oracle []c11mOracle  `json:"oracle"`
+	Out    []c11mOutcome `json:"out"` // one per executed "req" op, in order
+}
+
+func c11hExec(raw json.RawMessage) interface{} {
+	c11mLogOnce.Do(logger.InitNop)
+	if c11mOverBudget() {
+		return c11hObs{Err: "budget-exhausted"}
+	}
+	var in c11hInput
+	if err := json.Unmarshal(raw, &in); err != nil {
+		return c11hObs{Err: "bad-input"}
+	}
+	yamls := make([]string, len(in.Specs))
+	mappers := make([]*c11mMapper, len(in.Specs))
+	for i, g := range in.Specs {
+		y, err := c11mYAML(g)
+		if err != nil {
+			return c11hObs{Err: "bad-spec"}
+		}
+		if _, err := supervisor.NewSpec(y); err != nil {
+			return c11hObs{Err: "bad-spec", Note: err.Error()}
+		}
+		yamls[i], mappers[i] = y, c11mNewMapper(g)
+	}
+	obs := c11hObs{Oracle: []c11mOracle{}, Out: []c11mOutcome{}}
+	for _, q := range in.Reqs {
+		stdr := c11mStdReq(q)
+		hr, _ := httpprot.NewRequest(stdr)
+		host := stdr.Host
+		if h, _, err := net.SplitHostPort(host); err == nil {
+			host = h
+		}
+		obs.Oracle = append(obs.Oracle, c11mOracle{HostNoPort: host, IP: hr.RealIP(), XFFContains: strings.Contains(q.XFF, hr.RealIP())})
+	}
+	m := newMux(httpstat.New(), httpstat.NewTopN(10), &c11mMapper{handlers: map[string]*c11mHandler{}})
+	defer m.close()
+	for _, op := range in.Hist {
+		switch op.Op {
+		case "reload":
+			if op.I < 0 || op.I >= len(yamls) {
+				continue
+			}
+			ss, err := supervisor.NewSpec(yamls[op.I]) // a fresh spec object per update, as the supervisor does
+			if err != nil {
+				return c11hObs{Err: "bad-spec"}
+			}
+			m.reload(ss, mappers[op.I])
+		case "req":
+			if op.I < 0 || op.I >= len(in.Reqs) {
+				continue
+			}
+			obs.Out = append(obs.Out, c11mServe(m, in.Reqs[op.I]))
+		}
+	}
+	return obs
+}
+
+func c11hClone(g c11mGenSpec) c11mGenSpec {
+	var c c11mGenSpec
+	raw, _ := json.Marshal(g)
+	json.Unmarshal(raw, &c)
+	return c
+}
+
+// c11hMember derives a family member that differs from base in exactly one aspect.
+func c11hMember(r *verifh.Rand, base c11mGenSpec, k int) c11mGenSpec {
+	g := c11hClone(base)
+	g.Tag = fmt.Sprintf("S%d", k)
+	pickPath := func() *c11mPath {
+		if len(g.Rules) == 0 {
+			return nil
+		}
+		ru := &g.Rules[r.Intn(len(g.Rules))]
+		if len(ru.Paths) == 0 {
+			return nil
+		}
+		return &ru.Paths[r.Intn(len(ru.Paths))]
+	}
+	switch r.Intn(9) {
+	case 0: // unchanged spec (only the mapper object's tag differs)
+	case 1: // server ipFilter only
+		if g.IPFilter == nil || r.Bool(2, 3) {
+			g.IPFilter = c11mIPFGen(r)
+		} else {
+			g.IPFilter = nil
+		}
+	case 2: // rule ipFilter only
+		if len(g.Rules) > 0 {
+			ru := &g.Rules[r.Intn(len(g.Rules))]
+			if ru.IPFilter == nil || r.Bool(2, 3) {
+				ru.IPFilter = c11mIPFGen(r)
+			} else {
+				ru.IPFilter = nil
+			}
+		}
+	case 3: // path ipFilter only
+		if p := pickPath(); p != nil {
+			if p.IPFilter == nil || r.Bool(2, 3) {
+				p.IPFilter = c11mIPFGen(r)
+			} else {
+				p.IPFilter = nil
+			}
+		}
+	case 4: // xForwardedFor only
+		g.XFF = !g.XFF
+	case 5: // backend names (and the mapper that knows them) only
+		ren := map[string]string{"p1": "q1", "p2": "q2", "p3": "q3", "q1": "p1", "q2": "p2", "q3": "p3"}
+		for i := range g.Rules {
+			for j := range g.Rules[i].Paths {
+				g.Rules[i].Paths[j].Backend = ren[g.Rules[i].Paths[j].Backend]
+			}
+		}
+		for i := range g.Backends {
+			g.Backends[i] = ren[g.Backends[i]]
+		}
+	case 6: // cacheSize only
+		g.CacheSize = r.PickInt(0, 1, 2, 16)
+	case 7: // rules only: one path's matcher / rewrite / methods
+		if p := pickPath(); p != nil {
+			switch r.Intn(3) {
+			case 0:
+				p.Path, p.PathPrefix = "", r.Pick("/x", "/", "/x/")
+			case 1:
+				if p.Path != "" || p.PathPrefix != "" {
+					p.RewriteTarget = r.Pick("", "/s", "/s/")
+				}
+			default:
+				p.Methods = []string{r.Pick("GET", "POST")}
+			}
+		}
+	default: // mapper only: a backend disappears from the mapper (503 under this generation)
+		if len(g.Backends) > 1 {
+			g.Backends = g.Backends[1:]
+		}
+	}
+	return g
+}
+
+func c11hGen(r *verifh.Rand, i int) interface{} {
+	base := c11mGenSpecA(r)
+	base.Tag = "S0"
+	base.CacheSize = r.PickInt(0, 1, 2, 16, 16)
+	if r.Bool(1, 2) && len(base.Rules) > 0 {
+		base.Rules[r.Intn(len(base.Rules))].IPFilter = c11mIPFGen(r)
+	}
+	if r.Bool(1, 3) && len(base.Rules) > 0 && len(base.Rules[0].Paths) > 0 {
+		base.Rules[0].Paths[0].IPFilter = c11mIPFGen(r)
+	}
+	in := c11hInput{Specs: []c11mGenSpec{base}}
+	n := r.Range(2, 5)
+	for k := 1; k < n; k++ {
+		src := base
+		if r.Bool(1, 3) { // chains of single-aspect changes
+			src = in.Specs[len(in.Specs)-1]
+		}
+		in.Specs = append(in.Specs, c11hMember(r, src, k))
+	}
+	// request templates: few keys, each from several client IPs / with and without X-Forwarded-For
+	nk := r.Range(1, 3)
+	for k := 0; k < nk; k++ {
+		host := r.Pick("a.com", "a.com", "a.com:8080", "b.com", "c.com")
+		method := r.Pick("GET", "GET", "POST")
+		path := r.Pick("/x", "/x", "/x/y", "/xy", "/z", "/")
+		for _, ip := range c11mClientIPs {
+			if r.Bool(3, 4) {
+				q := c11mReq{Host: host, Method: method, Path: path, Remote: ip + ":4000"}
+				if r.Bool(1, 4) {
+					q.XFF = r.Pick("10.0.0.1", "10.0.0.2, 10.0.0.9", "9.9.9.9")
+				}
+				in.Reqs = append(in.Reqs, q)
+			}
+		}
+	}
+	if len(in.Reqs) == 0 {
+		in.Reqs = append(in.Reqs, c11mReq{Host: "a.com", Method: "GET", Path: "/x", Remote: "10.0.0.1:4000"})
+	}
+	burst := func() {
+		// every template, in a random rotation, some twice in a row (second one is a cache hit)
+		off := r.Intn(len(in.Reqs))
+		for k := range in.Reqs {
+			j := (k + off) % len(in.Reqs)
+			in.Hist = append(in.Hist, c11hOp{Op: "req", I: j})
+			if r.Bool(1, 3) {
+				in.Hist = append(in.Hist, c11hOp{Op: "req", I: j})
+			}
+		}
+	}
+	if r.Bool(1, 8) {
+		burst() // before the first reload: the empty generation of newMux
+	}
+	in.Hist = append(in.Hist, c11hOp{Op: "reload", I: 0})
+	burst()
+	steps := r.Range(2, 6)
+	for k := 0; k < steps; k++ {
+		in.Hist = append(in.Hist, c11hOp{Op: "reload", I: r.Intn(len(in.Specs))})
+		burst()
+	}
+	return in
+}
+
+func TestVerifC11MuxHist(t *testing.T) {
+	verifh.Run(t, c11hGen, c11hExec, 0)
 }
